@@ -1,20 +1,18 @@
 #!/bin/bash
-# usage: mut.sh <prop> <file> <python-regex-old> <new>   -- applies one textual mutation to /repo, runs the check, restores
-prop="$1"; file="$2"; old="$3"; new="$4"
-cd /repo
-python3 - "$file" "$old" "$new" <<'PY'
-import sys,re
+# usage: mut.sh <props (space separated)> <file> <old text> <new text>
+# Applies one textual mutation to a SCRATCH COPY of /repo (never to /repo itself), builds it, runs the checks on the copy.
+props="$1"; file="$2"; old="$3"; new="$4"
+here="$(cd "$(dirname "$0")" && pwd)"
+export GOFLAGS=-mod=mod GOPROXY=off GOSUMDB=off GOTOOLCHAIN=local CGO_ENABLED=0; unset GOWORK
+scratch=$(mktemp -d /tmp/mut.XXXXXX); trap 'rm -rf "$scratch"' EXIT
+rsync -a --exclude .git /repo/ "$scratch/repo/"; mkdir -p "$scratch/verif"; cp "$here/known_findings.txt" "$scratch/verif/"
+python3 - "$scratch/repo/$file" "$old" "$new" <<'PY' || exit 3
+import sys
 f,old,new=sys.argv[1:4]
 s=open(f).read()
-n=s.count(old)
-if n<1: print("PATTERN NOT FOUND"); sys.exit(3)
-s=s.replace(old,new,1)
-open(f,'w').write(s)
+if s.count(old)<1: print("PATTERN NOT FOUND"); sys.exit(3)
+open(f,'w').write(s.replace(old,new,1))
 PY
-rc=$?
-if [ $rc -ne 0 ]; then git checkout -- . ; exit 3; fi
-export GOFLAGS=-mod=mod GOPROXY=off GOSUMDB=off GOTOOLCHAIN=local; unset GOWORK
-if ! go build ./... 2>/tmp/mut_build.txt; then echo "MUTANT DOES NOT COMPILE"; head -5 /tmp/mut_build.txt; git checkout -- .; exit 4; fi
-cd /verif
-for p in $prop; do ./check $p | grep -E "^(VIOLATION:|UNDECIDED:|C[0-9]+ quick)" | cut -c1-300; done
-cd /repo && git checkout -- .
+( cd "$scratch/repo" && go build ./... ) 2>"$scratch/build.txt" || { echo "MUTANT DOES NOT COMPILE"; head -5 "$scratch/build.txt"; exit 4; }
+( cd "$here/checker" && go build -o "$here/bin/spinecheck" . ) || exit 2
+"$here/bin/spinecheck" -props "$(echo $props | tr ' ' ',')" -repo "$scratch/repo" -verif "$scratch/verif" 2>&1 | grep -E "^(VIOLATION:|UNDECIDED:|C[0-9]+ quick|environment|analysis panic)" | cut -c1-300
